@@ -277,3 +277,40 @@ def _(p):
         if p.get("tag") in (None, tg):
             return f"{tg}: spec {cc.SPECS[cfg['spec_id']][1]!r} nulls z={cc.NULL_SETS[cfg['z']]} w={cc.NULL_SETS[cfg['w']]} A={cc.NULL_SETS[cfg['A']]} index={cfg['index']} output={cfg['output']}: {msg}"
     return None
+
+
+# ------------------------------------------------------------------------------------------------ C03
+
+
+@replay("c03_family")
+def _(p):
+    """Native float check at two generic points: rank and span via numpy.linalg."""
+    import pandas
+    from formulaic import Formula, model_matrix
+
+    LEVELS = {"A": ["p", "q"], "B": ["r", "s", "t"], "D": ["u", "v"]}
+    results = []
+    for point in (0, 1):
+        rows = [(a, b, c) for a in LEVELS["A"] for b in LEVELS["B"] for c in LEVELS["D"]] * 3
+        n = len(rows)
+        num = [((37 * (i + 1) + 101 * point) % 53) / 4.0 + 0.25 + point for i in range(n)]
+        df = pandas.DataFrame({"A": pandas.Categorical([r[0] for r in rows], categories=LEVELS["A"]), "B": pandas.Categorical([r[1] for r in rows], categories=LEVELS["B"]),
+                               "D": pandas.Categorical([r[2] for r in rows], categories=LEVELS["D"]), "a": numpy.array(num)})
+        tl = list(p["terms"])
+        if p.get("contrast"):
+            tl = [":".join(f"C({f}, contr.{p['contrast']})" if f in LEVELS else f for f in t.split(":")) for t in tl]
+        F = Formula((["1"] if p["intercept"] else []) + tl, _ordering="none")
+        kw = dict(cluster_by="numerical_factors") if p["cluster"] else {}
+        R = numpy.asarray(model_matrix(F, df, ensure_full_rank=True, output="numpy", **kw), dtype=float)
+        Fm = numpy.asarray(model_matrix(F, df, ensure_full_rank=False, output="numpy", **kw), dtype=float)
+        rk = lambda M: int(numpy.linalg.matrix_rank(M, tol=1e-8)) if M.size else 0
+        rR, rF, rB = rk(R), rk(Fm), rk(numpy.hstack([R, Fm]))
+        if rR < R.shape[1]:
+            results.append(f"rank-deficient: terms {p['terms']} intercept={p['intercept']}: reduced matrix has {R.shape[1]} columns of rank {rR}")
+        elif rB > rR:
+            results.append(f"span-shrunk: terms {p['terms']} intercept={p['intercept']}: rank(reduced)={rR} < rank([reduced|unreduced])={rB}")
+        elif rB > rF:
+            results.append(f"span-grown: terms {p['terms']} intercept={p['intercept']}: rank(unreduced)={rF} < rank([reduced|unreduced])={rB}")
+        else:
+            results.append(None)
+    return results[0] if results[0] and results[1] else None
